@@ -16,7 +16,7 @@ var _ *raft.RaftGroup
 // of the zero group has to be registered before it; and StartNode may only be used on storage that holds nothing.
 //@ func (*anndb.Server).setup
 //@ props C14 C05
-//@ safety C12
+//@ safety UNCLAIMED
 //@ ghost consumers int = 0
 //@ at call storage.NewDatasetManager
 //@ set consumers = 1
